@@ -25,5 +25,13 @@ func genEnv(t *rapid.T) vt.Env {
 	if rapid.IntRange(0, 3).Draw(t, "env?") != 0 {
 		return vt.Env{}
 	}
-	return vt.Env{Local: rapid.SampledFrom(vt.Locals).Draw(t, "processZone")}
+	e := vt.Env{Local: rapid.SampledFrom(vt.Locals).Draw(t, "processZone")}
+	if rapid.IntRange(0, 2).Draw(t, "procs?") == 0 {
+		// another number of processors than the machine's: 1 (no parallel path), small odd numbers (remainders)
+		e.Procs = rapid.SampledFrom([]int{1, 2, 3, 5, 7}).Draw(t, "GOMAXPROCS")
+		if rapid.Bool().Draw(t, "procsOnly") {
+			e.Local = ""
+		}
+	}
+	return e
 }
